@@ -1,11 +1,12 @@
 (* C22 — Query time axes are aligned, gap-free and bounded.
    This file holds only the property theorems (closed by [exact]) and non-vacuity examples.
-   What is proved here is PARTIAL with respect to the property text: the helpers (mathDiv, roundTime, endOfLOD,
-   calcUTCOffset), the time-generation loop (gen_time) and the LOD-selection loop's output steps are proved for all
-   inputs; the point-count bound, the coverage clause and the link "GetTimescale result = gen_time of the loop's LODs
-   with an aligned first point" are checked by the Go-side oracles and the correspondence only (see checks/C22.json). *)
+   The theorems named C22_range_* / C22_errors_only_when_out_of_range are stated on the RESULT of the model's
+   GetTimescale ([get_timescale false] = the current code, "lod.Len < 0"), for every input with a fixed (non-monthly)
+   step, in the three axis modes (range, instant, tags).  Point queries return the two end points only and monthly
+   steps depend on the calendar parameter: for those the clauses are evaluated by the Go-side oracles and the
+   correspondence only (checks/C22.json). *)
 From Coq Require Import ZArith List Bool Sorted Lia.
-From SH Require Import Gen.TimescaleLod Timescale.Model Timescale.Proofs.
+From SH Require Import Gen.TimescaleLod Timescale.Model Timescale.Proofs Timescale.Loop Timescale.Result.
 Import ListNotations.
 Open Scope Z_scope.
 
@@ -80,7 +81,99 @@ Proof. exact lods_ok_fixed_tables. Qed.
 Theorem C22_level_steps_divide : forall lv, In lv lod_levels -> dchain (snd lv).
 Proof. exact levels_divide. Qed.
 
-(* FINDING F-C22a: the code as written (strict = true) answers "LOD out of range" to a 10-hour query that is not out
+(* ---------- theorems about the result of GetTimescale (fixed steps, all inputs) ---------- *)
+
+(* "consecutive points differ by exactly their level-of-detail step ... every point is aligned to its step ... each
+   level's step is one of the table resolutions and levels get finer toward the present": the returned Time is exactly
+   the concatenation of the per-LOD arithmetic progressions [progs t0 LODs]; every LOD has a step from the fixed-step
+   table, a positive length; steps strictly decrease and each divides the previous; the first point is aligned; the
+   LOD lengths sum to the number of points *)
+Theorem C22_range_time_is_lod_progressions :
+  forall c a ts, a_step a <> month_step -> is_point (a_mode a) = false -> get_timescale false c a = ROk ts ->
+  exists t0,
+    ts_time ts = progs t0 (ts_lods ts) /\
+    Forall (lod_ok fixed_all) (ts_lods ts) /\ StronglySorted gt_fst (ts_lods ts) /\ lods_div (ts_lods ts) /\
+    match ts_lods ts with (s, _) :: _ => aligned (a_utc a) t0 s | [] => True end /\
+    zlen (ts_time ts) = lsum (ts_lods ts).
+Proof. exact range_time_is_progressions. Qed.
+
+(* the fixed-step table is part of LODTables *)
+Theorem C22_fixed_steps_in_table : incl fixed_all lod_table_steps.
+Proof. exact fixed_all_in_table. Qed.
+
+(* "the returned time points strictly increase, consecutive points differ by exactly their level-of-detail step, every
+   point is aligned to its step in the configured time zone" *)
+Theorem C22_range_time_increasing_gapfree_aligned :
+  forall c a ts, a_step a <> month_step -> is_point (a_mode a) = false -> get_timescale false c a = ROk ts ->
+  StronglySorted Z.lt (ts_time ts) /\
+  (exists t0 tl, chain t0 (ts_time ts) (steps_of (ts_lods ts)) tl) /\
+  Forall2 (fun p s => (p + a_utc a) mod s = 0) (ts_time ts) (steps_of (ts_lods ts)).
+Proof. exact range_time_increasing_gapfree_aligned. Qed.
+
+(* "the number of points stays within the limit" *)
+Theorem C22_range_point_count_bounded :
+  forall c a ts, a_step a <> month_step -> is_point (a_mode a) = false -> get_timescale false c a = ROk ts ->
+  zlen (ts_time ts) <= max_points + 3.
+Proof. exact range_point_count_bounded. Qed.
+
+(* "the requested range is covered starting at the reported start index": StartX = 1, ViewStartX = 1 + Extend; the
+   point just before ViewStartX lies before the requested start and the next aligned instant does not; the last point
+   is the last aligned instant before the end, followed by exactly one more point when Extend is set *)
+Theorem C22_range_covered :
+  forall c a ts, a_step a <> month_step -> is_point (a_mode a) = false -> get_timescale false c a = ROk ts ->
+  ts_time ts <> [] ->
+  let s0 := fst (hd (0, 0) (ts_lods ts)) in
+  let sk := fst (last (ts_lods ts) (0, 0)) in
+  let p := nth (Z.to_nat (ts_vstartx ts - 1)) (ts_time ts) 0 in
+  let q := last (ts_time ts) 0 in
+  ts_startx ts = 1 /\ ts_vstartx ts = 1 + (if a_extend a then 1 else 0) /\
+  p < a_start a <= p + s0 /\
+  (if a_extend a then q - sk < a_end a <= q else q < a_end a <= q + sk).
+Proof. exact range_covered. Qed.
+
+(* "The per-level ranges handed to the storage layer are contiguous and match those points": for offset 0 and every
+   metric offset, Timescale.GetLODs returns [ranges (t0 - off) LODs] for the same t0 with Time = progs t0 LODs ... *)
+Theorem C22_range_lods_match_time :
+  forall c a ts, a_step a <> month_step -> is_point (a_mode a) = false -> get_timescale false c a = ROk ts ->
+  forall off, ts_time ts <> [] -> (off = 0 \/ In off (map fst (a_metrics a))) ->
+  exists t0, ts_time ts = progs t0 (ts_lods ts) /\
+             ts_get_lods c (a_utc a) ts off = ranges (t0 - off) (ts_lods ts).
+Proof. exact range_get_lods. Qed.
+(* ... [ranges] are contiguous (each starts where the previous ends) ... *)
+Theorem C22_ranges_contiguous : forall lods t, contig t (ranges t lods) (t + span lods).
+Proof. exact ranges_contig. Qed.
+(* ... and range k is (first point of progression k, that + Len*Step, Step): the points are the ranges walked step by step *)
+Theorem C22_ranges_are_the_progressions :
+  forall lods t,
+  progs t lods = flat_map (fun x => seg (Z.to_nat (snd (snd x))) (fst (fst (fst x))) (fst (snd x))) (combine (ranges t lods) lods)
+  /\ Forall2 (fun rg sl => snd rg = fst sl /\ snd (fst rg) = fst (fst rg) + snd sl * fst sl) (ranges t lods) lods.
+Proof. exact ranges_progs. Qed.
+
+(* errors only when out of range (all modes): the current code fails only with "exceeded maximum resolution" — not a
+   point query and even the coarsest step needs more than maxPoints points — or with an offset that is not a multiple
+   of the first LOD step; the internal "LOD out of range" never happens *)
+Theorem C22_errors_only_when_out_of_range :
+  forall c a er, a_step a <> month_step -> get_timescale false c a = RErr er ->
+  (er = EOutOfRange /\ is_point (a_mode a) = false /\
+   exists lv, In lv lod_levels /\
+     max_points < cnt (round_time (a_start a - q_moff a) (hd 0 (snd lv)) (a_utc a)) (hd 0 (snd lv)) (a_end a - q_moff a)) \/
+  (er = EOffset /\ exists s0 m, In s0 fixed_all /\ In m (a_metrics a) /\ Z.rem (fst m) s0 <> 0).
+Proof. exact errors_only_when_out_of_range. Qed.
+(* every level starts with the same coarsest step, and [cnt] is endOfLOD's point count *)
+Theorem C22_coarsest_step : forall lv, In lv lod_levels -> hd 0 (snd lv) = hd 0 fixed_all.
+Proof. exact coarsest_step. Qed.
+Theorem C22_cnt_spec :
+  forall start step e, 0 < step ->
+  (e <= start /\ cnt start step e = 0) \/
+  (start < e /\ 0 < cnt start step e /\ e <= start + cnt start step e * step < e + step).
+Proof. exact cnt_spec. Qed.
+
+(* the invariant of the level loop, for all inputs (both modes): see Loop.v, [outer_spec] *)
+Theorem C22_level_tables_well_formed : lv_wf fixed_all lod_levels.
+Proof. exact lod_levels_wf. Qed.
+
+
+(* FINDING F-C22a (fixed in /repo by commit 2fe72361; strict = true is the code before that commit): it answers "LOD out of range" to a 10-hour query that is not out
    of range: its start lies exactly on a LOD switch and is aligned to that level's finest step; the repaired variant
    (an empty level is skipped) returns the 7201-point axis *)
 Theorem C22_errors_only_when_out_of_range_refuted :
@@ -107,3 +200,24 @@ Example C22_nonvacuous_chain :
   chain 10 (fst (gen_time (table_cal []) 10 [(5, 2); (1, 3)])) [5; 5; 1; 1; 1] 23 /\ dchain [604800; 86400; 3600] /\
   end_of_lod_closed 3 5 14 false = (18, 3) /\ round_time (-7) 5 2 = -7 /\ math_div (-7) 2 = -4.
 Proof. split; [repeat constructor|]. split; [repeat constructor; apply Z.mod_divide; try lia; reflexivity|]. vm_compute. auto. Qed.
+
+Definition ex_args : args :=
+  {| a_start := 1700000000; a_end := 1700000000 + 35 * 86400; a_step := 1; a_now := 1700000000 + 35 * 86400; a_width := 0;
+     a_mode := MRange; a_extend := true; a_metrics := [(604800, 15)]; a_utc := 259200 |}.
+Example C22_nonvacuous_range_result :
+  a_step ex_args <> month_step /\ is_point (a_mode ex_args) = false /\
+  exists ts, get_timescale false (table_cal []) ex_args = ROk ts /\ ts_lods ts = [(3600, 218); (900, 2494)] /\
+             zlen (ts_time ts) = 2712 /\ ts_time ts <> [] /\
+             ts_get_lods (table_cal []) (a_utc ex_args) ts 604800 = [(1699390800, 1700175600, 3600); (1700175600, 1702420200, 900)].
+Proof.
+  split; [vm_compute; congruence|]. split; [reflexivity|]. eexists. split; [vm_compute; reflexivity|].
+  split; [reflexivity|]. split; [reflexivity|]. split; [discriminate|]. vm_compute. reflexivity.
+Qed.
+Example C22_nonvacuous_errors :
+  get_timescale false (table_cal [])
+    {| a_start := 0; a_end := 5000000000; a_step := 60; a_now := 5000000000; a_width := 0; a_mode := MRange; a_extend := false;
+       a_metrics := []; a_utc := 0 |} = RErr EOutOfRange /\
+  get_timescale false (table_cal [])
+    {| a_start := 1700000000; a_end := 1700100000; a_step := 60; a_now := 1700100000; a_width := 0; a_mode := MRange; a_extend := false;
+       a_metrics := [(30, 1)]; a_utc := 0 |} = RErr EOffset.
+Proof. split; vm_compute; reflexivity. Qed.
